@@ -47,7 +47,11 @@ def run_component(c, tier):
         bpath = os.path.join(BASE, c["unit"] + ".json")
         if r.status == "ok" and os.path.exists(bpath):
             base = json.load(open(bpath))
-            missing = [f for f in base["verified_functions"] if not r.verus_functions.get(f, {}).get("success")]
+            # Verus numbers impl blocks (impl&%N) in file order: normalise, the number is not part of the identity
+            import re as _re
+            norm = lambda n: _re.sub(r"impl&%\d+", "impl", n)
+            ok_now = {norm(k) for k, v in r.verus_functions.items() if v.get("success")}
+            missing = sorted({norm(f) for f in base["verified_functions"]} - ok_now)
             if missing:
                 j["status"] = "undecided"
                 j["reason"] = "functions in baseline no longer verified/present: " + ", ".join(missing[:6])
